@@ -695,6 +695,9 @@ def run_family(prop, family, tier, seed, build, impl=None, skip_mc=False, max_la
         if family == "lb" and any(abs(float(x) - 1.0) < 1e-3 for x in sp):
             excluded["reversed reference load within 1e-3 of critical (KG - K singular)"] += 1
             return
+        if family == "lb" and any(abs(float(x) * sc + 1.0) < 1e-6 for x in sp for sc in (1, 2, 0.5)):
+            excluded["reference load within 1e-6 of critical (Cayley Ritz value 0, ARPACK purification divides by it)"] += 1
+            return
         if family == "freq" and (any(c == "konly" for c in cls) or min(sp) <= 0):
             excluded["mass matrix not positive definite on the active amplitudes"] += 1
             return
